@@ -292,7 +292,9 @@ func TypeAlphabet(t reflect.Type, thorough bool) []*Node {
 	case reflect.Float64:
 		a := lits("0", "1", "-1", "0.5", "30", "2.25")
 		if thorough {
-			a = append(a, lits("1e-7", "0.1", "1.7976931348623157e308", "-0", "5e-324", "123456789.123456789", "1e400")...)
+			// exponents are spelled the YAML 1.1 way (mantissa with a dot, signed exponent): the YAML library used by the
+			// repository reads "1e-7" as a string
+			a = append(a, lits("1.0e-7", "0.1", "1.7976931348623157e+308", "-0.0", "5.0e-324", "123456789.123456789", "1.0e+400")...)
 		}
 		return a
 	case reflect.String:
